@@ -2,7 +2,8 @@
 
 Correspondence: the real `pad_variable` / `chunk_by_slices` / `pad_masked_sequence` /
 `random_shift` (functional and module entry points) run on integer-valued tensors (so every
-float operation is exact); the Lean driver returns for the same request
+float operation is exact) or — value classes, see VCLASSES — on elements from the corners of the dtype,
+read back bit for bit; the Lean driver returns for the same request
   * `model`  : the batch-flattened select/scatter model of the (repaired) code,
   * `pinned` : the same model with the pinned tree's replicate buffers / `T = 0` early return
                (only used to recognise the specific wrong behaviour of the two known defects),
@@ -20,8 +21,42 @@ from common.framework import PropertyCheck, frac_str
 
 MODES = ("constant", "reflect", "replicate")
 TRAILS = [[], [], [], [1], [2], [3], [2, 2], [1, 2], [0], [2, 0], [2, 1, 2], [1, 1, 1], [1, 2, 1, 2]]
-DTYPES = ("float32", "float32", "float64", "int64", "float16", "int32", "bool")
-FLOAT_DTYPES = ("float32", "float64", "float16")
+DTYPES = ("float32", "float32", "float64", "int64", "float16", "int32", "bool", "float64", "int64", "bfloat16",
+          "int16")
+FLOAT_DTYPES = ("float32", "float64", "float16", "bfloat16")
+SMALL16 = ("float16", "bfloat16", "int16")   # 16-bit cells: labels stay below 2048
+# VALUE CLASSES. The four functions only MOVE elements, so the model (and every theorem) treats a cell as an
+# opaque label; the harness is free to choose which element of the dtype a label stands for. Without a
+# class a label v is the number v (small integers: exact in every dtype but bfloat16). With a class
+# (`case["vclass"]`) label v stands for the element `enc_bits(dtype, class, v)` — an injective map into the
+# corner of the dtype named by the class — and the output is read back BIT FOR BIT (`Decoder`): an element
+# that went through another dtype, through arithmetic, or through a float comparison does not come back as
+# the label it was copied from.
+#   floats (per format: exponent / mantissa width): `mantissa` = 1.0 + label ulps scaled so that the lowest AND
+#   high mantissa bits are set, odd labels negative (float64: needs > 24 and > 32 bits); `near_max` /
+#   `neg_near_max` = the largest finite element minus label ulps (overflows every narrower format); `tiny` =
+#   the smallest subnormals (flush to zero in every narrower format); `nonfinite` = elements next to the
+#   largest finite one and (labels 1..4, planted by the generator in about a sixth of the cells) +inf, -inf,
+#   -0.0, NaN. A NaN is read back as "a NaN": torch's own bfloat16 gather kernel does not keep NaN payloads
+#   (probed: 0x7fd3 comes back as 0xffff), so payloads are not specified; everything else is bit for bit.
+#   integers: `2^24` / `-2^24` (beyond float32's exact range), `2^31` (beyond int32, int64 only), `2^53` /
+#   `-2^53` (beyond float64's exact range), `2^62`, `max` / `min` (the extremes of the dtype).
+FLOAT_FMT = {"float64": (11, 52, "int64"), "float32": (8, 23, "int32"), "float16": (5, 10, "int16"),
+             "bfloat16": (8, 7, "int16")}
+INT_WIDTH = {"int64": 64, "int32": 32, "int16": 16}
+FLOAT_CLASSES = ("mantissa", "near_max", "neg_near_max", "tiny", "nonfinite")
+VCLASSES = {"float64": FLOAT_CLASSES + ("mantissa",), "float32": FLOAT_CLASSES, "float16": FLOAT_CLASSES,
+            "bfloat16": FLOAT_CLASSES,
+            "int64": ("2^24", "-2^24", "2^31", "2^53", "-2^53", "2^62", "max", "min", "2^24", "2^53"),
+            "int32": ("2^24", "-2^24", "max", "min", "2^24"), "int16": ("max", "min")}
+LBL_INF, LBL_NINF, LBL_NZERO, LBL_NAN = 1, 2, 3, 4   # `nonfinite`: the labels that stand for +inf, -inf, -0.0, NaN
+# pad values at the edge of what the dtype holds (constant mode; all exactly representable as a python float,
+# which is what the documentation asks `value` to be)
+BIG_VALUES = {"float64": (16777217, -16777217, 2 ** 53 - 1, 2 ** 1000, -(2 ** 1000)),
+              "float32": (16777215, -16777215, 2 ** 127, -(2 ** 127)),
+              "float16": (65504, -65504, 2047), "bfloat16": (2 ** 127, -(2 ** 127), 255),
+              "int64": (16777217, -16777217, 2 ** 31, 2 ** 53, -(2 ** 62)),
+              "int32": (16777217, -16777217, 2 ** 31 - 1, -(2 ** 31)), "int16": (32767, -32768)}
 VALUES = (-1, 0, 7)
 FRAC_VALUES = ("1/2", "-5/2")          # exact in every float dtype; only generated for float dtypes
 X_LAYOUTS = ("transposed", "strided", "offset", "expand_last", "expand0")
@@ -46,6 +81,115 @@ def prod(l):
     return p
 
 
+def enc_bits(dtype, vclass, v):
+    """The element of `dtype` that label `v >= 0` stands for in value class `vclass`, as its bit pattern
+    (floats: the IEEE pattern as an unsigned integer; integers: the value itself). Injective in v on the
+    label ranges the generators use (16-bit dtypes: v < 8192; others: v < 2^20)."""
+    if dtype in INT_WIDTH:
+        w = INT_WIDTH[dtype]
+        top, low = 2 ** (w - 1) - 1, -(2 ** (w - 1))
+        val = {"2^24": 2 ** 24 + v, "-2^24": -(2 ** 24) - v, "2^31": 2 ** 31 - 1 + v, "2^53": 2 ** 53 + v,
+               "-2^53": -(2 ** 53) - v, "2^62": 2 ** 62 + v, "max": top - v, "min": low + v}[vclass]
+        if not low <= val <= top:
+            raise AssertionError(f"harness: class {vclass} label {v} outside {dtype}")
+        return val
+    e, m, _ = FLOAT_FMT[dtype]
+    sign = 1 << (e + m)
+    inf = ((1 << e) - 1) << m
+    maxfin = inf - 1
+    one = ((1 << (e - 1)) - 1) << m
+    if vclass == "mantissa":
+        k = v * ((1 << 24) + 1) if dtype == "float64" else v
+        bits = (one + k) | (sign if v & 1 else 0)
+    elif vclass == "near_max":
+        bits = maxfin - v
+    elif vclass == "neg_near_max":
+        bits = sign | (maxfin - v)
+    elif vclass == "tiny":
+        bits = v + 1
+    elif vclass == "nonfinite":
+        if v == 0:
+            bits = maxfin
+        elif v == LBL_INF:
+            bits = inf
+        elif v == LBL_NINF:
+            bits = sign | inf
+        elif v == LBL_NZERO:
+            bits = sign
+        elif v == LBL_NAN:
+            bits = inf | (1 << (m - 1))        # the quiet NaN (read back: any NaN, see Decoder)
+        else:
+            bits = maxfin - 1 - v              # finite, next to the largest element
+    else:
+        raise AssertionError(f"harness: unknown value class {vclass} for {dtype}")
+    if not 0 <= (bits & ~sign) <= (inf | ((1 << m) - 1)) or (vclass != "nonfinite" and (bits & ~sign) >= inf):
+        raise AssertionError(f"harness: class {vclass} label {v} outside {dtype}")
+    return bits
+
+
+def vclass_of(case):
+    """the value class of a case, or None (also when a shrinking step changed the dtype under it)"""
+    vc = case.get("vclass")
+    if vc and vc in VCLASSES.get(case.get("dtype", "float32"), ()):
+        return vc
+    # bfloat16 holds the integers up to 256 only: labels are never taken as numbers there
+    return "mantissa" if case.get("dtype") == "bfloat16" else None
+
+
+def bits_of(t, torch):
+    """a tensor's elements as integers that identify them bit for bit (same shape and strides)"""
+    name = str(t.dtype).split(".")[-1]
+    return t.view(getattr(torch, FLOAT_FMT[name][2])) if name in FLOAT_FMT else t
+
+
+def same_bits(a, b, torch):
+    """element-wise identity (NaN equals the same NaN, 0.0 differs from -0.0)"""
+    return a.shape == b.shape and a.dtype == b.dtype and bool(torch.equal(bits_of(a, torch), bits_of(b, torch)))
+
+
+class Decoder:
+    """Reads output cells back as labels, bit for bit. A cell whose pattern is not the image of a label of the
+    request is reported as the number it holds (that is how the pad value of constant mode looks) or, if it
+    is not finite, as its pattern — never as a label."""
+
+    def __init__(self, case, torch):
+        self.dtype, self.vclass = case["dtype"], vclass_of(case)
+        labels = {v for row in case["x"] for fr in row for v in fr}
+        self.rev = {enc_bits(self.dtype, self.vclass, v): v for v in labels}
+        if len(self.rev) != len(labels):
+            raise AssertionError("harness: value class encoding is not injective on this request")
+        self.mask = (1 << (sum(FLOAT_FMT[self.dtype][:2]) + 1)) - 1 if self.dtype in FLOAT_FMT else None
+        pv = torch.tensor([float(value_frac(case))], dtype=torch.float64).to(getattr(torch, self.dtype))
+        if self.key(bits_of(pv, torch).tolist()[0]) in self.rev:
+            raise AssertionError("harness: the pad value is also the image of a label")
+
+    def key(self, b):
+        return b & self.mask if self.mask is not None else b
+
+    def rows(self, t, N, F, torch):
+        Tp = t.shape[1]
+        if N == 0:
+            return []
+        if Tp == 0:
+            return [[] for _ in range(N)]
+        if not F:
+            return [[[] for _ in range(Tp)] for _ in range(N)]
+        t = t.reshape(N, Tp, F)
+        bits = bits_of(t, torch).tolist()
+        vals = (t.double() if t.dtype in (torch.float16, torch.bfloat16) else t).tolist()
+        return [[[self.cell(b, v) for b, v in zip(fb, fv)] for fb, fv in zip(rb, rv)] for rb, rv in zip(bits, vals)]
+
+    def cell(self, b, v):
+        lab = self.rev.get(self.key(b))
+        if lab is not None:
+            return lab
+        if v != v and self.vclass == "nonfinite":
+            return LBL_NAN                      # any NaN: payloads are not specified
+        if isinstance(v, float) and (v != v or v in (float("inf"), float("-inf"))):
+            return f"bits:{self.key(b):#x}"
+        return num(v)
+
+
 def mk_x(rng, N, T, F, dtype=None):
     """N x T x F nested list of cell values, DISTINCT wherever the dtype can hold that many exact integers
     (a reordering of elements must show): up to 899 cells a sample of 1..899; beyond that a sample of
@@ -55,7 +199,7 @@ def mk_x(rng, N, T, F, dtype=None):
     if cells <= 899:
         vals = rng.sample(range(1, 900), cells)
     else:
-        top = 2047 if dtype == "float16" else cells + 1
+        top = 2047 if dtype in SMALL16 else cells + 1
         pool = [v for v in range(1, top + 1) if v != FILLER]
         vals = []
         while len(vals) < cells:
@@ -90,7 +234,7 @@ def relayout(t, layout, torch):
         if (layout == "expand_last" and t.dim() < 3) or t.shape[d] == 0:
             return t
         v = t.narrow(d, 0, 1).expand(t.shape)
-        if not torch.equal(v, t):
+        if not same_bits(v, t, torch):
             raise AssertionError(f"harness: layout {layout} on data that varies along dimension {d}")
         return v
     raise AssertionError(f"harness: unknown layout {layout}")
@@ -103,7 +247,18 @@ def tens(case, torch):
     if "outer_shape" in case:
         shape = list(case["outer_shape"]) + list(case["trail"])
     flat = [v for row in case["x"] for fr in row for v in fr]
-    return relayout(torch.tensor(flat, dtype=dt).reshape(shape), case.get("x_layout"), torch)
+    vc = vclass_of(case)
+    if vc is None:
+        t = torch.tensor(flat, dtype=dt)
+    elif case["dtype"] in INT_WIDTH:
+        t = torch.tensor([enc_bits(case["dtype"], vc, v) for v in flat], dtype=dt)
+    else:
+        e, m, carrier = FLOAT_FMT[case["dtype"]]
+        w = e + m + 1
+        pats = [enc_bits(case["dtype"], vc, v) for v in flat]
+        t = torch.tensor([p - (1 << w) if p >> (w - 1) else p for p in pats],
+                         dtype=getattr(torch, carrier)).view(dt)
+    return relayout(t.reshape(shape), case.get("x_layout"), torch)
 
 
 def idx_tensor(vals, shape, case, torch):
@@ -136,7 +291,7 @@ def value_obs(case):
     return num(v)
 
 
-def rows_of(t, N, F):
+def plain_rows_of(t, N, F):
     """(N, T', *trail) -> N x T' x F nested list of exact numbers"""
     Tp = t.shape[1]
     if N == 0:
@@ -182,7 +337,11 @@ class C09(PropertyCheck):
             "pads or slice for every row, nothing to pad on one side, no slice reaching outside, masks already "
             "compact / true cells last / equal counts); pad_masked_sequence additionally re-run with k masked-out "
             "elements appended to every sequence (k small or carrying T across the next size threshold), "
-            "dtype float32/float64/float16/int64/int32/bool, x contiguous / transposed strides / strided view / "
+            "dtype float32/float64/float16/bfloat16/int64/int32/int16/bool; VALUE CLASSES (40 % of the cases, every "
+            "function / mode / entry; output read back bit for bit): floats with the full mantissa in use, next to "
+            "+-the largest finite element, subnormals, +inf/-inf/-0.0/NaN; integers around +-2^24, 2^31, +-2^53, "
+            "2^62 and at the extremes of the dtype; pad values at the edge of the dtype (2^24+1, 2^53, 2^1000, "
+            "65504, ...); x contiguous / transposed strides / strided view / "
             "offset view / expanded along the batch or the last dimension, lens-pad-slices int64 or int32 and "
             "contiguous / strided / transposed / offset, pad value -1, 0, 7 (float or python int) and 1/2, -5/2 "
             "(float dtypes), positional / keyword / defaults-omitted calls, lens 0..T (>= 1 for "
@@ -202,6 +361,10 @@ class C09(PropertyCheck):
         "torch masked_select / masked_scatter / gather / boolean indexing taken at their documented row-major meaning",
         "integer- or half-integer-valued data: float arithmetic of the implementation is exact on the generated "
         "inputs (a fractional pad value reaches the integer-celled model scaled by its denominator)",
+        "value classes: the model and every theorem are polymorphic in the cell type (the functions only move "
+        "elements), so a cell is a label; with a value class the harness lets label v stand for an element in a "
+        "corner of the dtype (injective map enc_bits) and reads the output back bit for bit; NaN payloads are not "
+        "compared (torch's own bfloat16 gather does not keep them), a NaN must come back as a NaN",
         "random_shift: uniform draws injected through torch.rand_like; `model` computes floor(prop*len*u) in exact "
         "rational arithmetic with prop the configured double, `model_f64` (randomShiftF64) in IEEE double "
         "arithmetic like the repaired code; the implementation is compared with model_f64 on every request and "
@@ -306,8 +469,15 @@ class C09(PropertyCheck):
         N, T, trail = c["N"], c["T"], c["trail"]
         if c["dtype"] == "bool":
             c[x_key] = [[[v & 1 for v in fr] for fr in row] for row in c[x_key]]
+        # which elements of the dtype the cells hold (see VCLASSES): small integers, or a corner of the dtype
+        # (bfloat16 holds the integers up to 256 only, so there a class is always chosen)
+        classes = VCLASSES.get(c["dtype"])
+        if classes and (c["dtype"] == "bfloat16" or rng.random() < 0.4):
+            self.set_vclass(rng, c, rng.choice(classes), x_key)
         if c["dtype"] in FLOAT_DTYPES and rng.random() < 0.25:
             c["value"] = rng.choice(FRAC_VALUES)
+        elif "vclass" not in c and c["dtype"] in BIG_VALUES and rng.random() < 0.12:
+            c["value"] = rng.choice(BIG_VALUES[c["dtype"]])   # a pad value at the edge of the dtype
         elif rng.random() < 0.2:
             c["value_kind"] = "int"                     # a python int where a float is documented
         if rng.random() < 0.45:
@@ -336,6 +506,23 @@ class C09(PropertyCheck):
             c["parent_eval"] = rng.random() < 0.5      # train/eval must not matter for pad / chunk / masked
         elif c["entry"] == "functional" and fn == "pad" and rng.random() < 0.15:
             c["entry"] = "util"                         # pydrobert.torch.util.pad_variable
+
+    def maybe_vclass(self, rng, c, p=0.4):
+        """the streams that do not go through `vary`"""
+        if VCLASSES.get(c["dtype"]) and rng.random() < p:
+            self.set_vclass(rng, c, rng.choice(VCLASSES[c["dtype"]]))
+
+    @staticmethod
+    def set_vclass(rng, c, vclass, x_key="x"):
+        """cells of x stand for the elements of value class `vclass`; `nonfinite`: about a sixth of the cells
+        (at least one) become +inf / -inf / -0.0 / NaN"""
+        c["vclass"] = vclass
+        if vclass == "nonfinite":
+            cells = [(a, b, k) for a, row in enumerate(c[x_key]) for b, fr in enumerate(row) for k in range(len(fr))]
+            if cells:
+                c[x_key] = [[list(fr) for fr in row] for row in c[x_key]]
+                for a, b, k in rng.sample(cells, max(1, len(cells) // 6)):
+                    c[x_key][a][b][k] = rng.choice([LBL_INF, LBL_NINF, LBL_NZERO, LBL_NAN])
 
     def gen_pad(self, rng, count):
         for _ in range(count):
@@ -581,6 +768,7 @@ class C09(PropertyCheck):
             if rng.random() < 0.3:
                 c["p1"] = c["p0"]
                 c["scalar_prop"] = True
+            self.maybe_vclass(rng, c)
             yield c
 
     _ties = None
@@ -635,6 +823,7 @@ class C09(PropertyCheck):
                  "draws": draws}
             if props[0] == props[1]:
                 c["scalar_prop"] = rng.random() < 0.5
+            self.maybe_vclass(rng, c)
             yield c
 
     _crossing = None
@@ -718,6 +907,7 @@ class C09(PropertyCheck):
                 c.update(lens=lens, p0=frac_str(Fraction(rng.randint(0, hi), 4)),
                          p1=frac_str(Fraction(rng.randint(0, hi), 4)), training=True,
                          draws=[[frac_str(Fraction(rng.randrange(64), 64)) for _ in range(N)] for _ in range(2)])
+            self.maybe_vclass(rng, c)
             yield c
 
     def gen_large(self, rng, count):
@@ -856,6 +1046,11 @@ class C09(PropertyCheck):
         style = case.get("call", "positional")
         x = tens(case, torch)
         watched = [("x", x)]
+        dec = Decoder(case, torch) if vclass_of(case) else None
+
+        def rows_of(t, N, F):
+            # with a value class: cells read back bit for bit as the labels they were copied from
+            return dec.rows(t, N, F, torch) if dec else plain_rows_of(t, N, F)
 
         def watch(name, t):
             watched.append((name, t))
@@ -904,7 +1099,7 @@ class C09(PropertyCheck):
 
         def finish(obs, snap):
             changed = [name for (name, t), old in zip(watched, snap)
-                       if t.shape != old.shape or not torch.equal(t, old)]
+                       if not same_bits(t, old, torch)]
             if changed:
                 obs["args_changed"] = changed
             return obs
@@ -1543,6 +1738,17 @@ class C09(PropertyCheck):
         v = value_frac(case)
         t.append("value=" + ("fractional" if v.denominator != 1 else "0" if v == 0 else "negative" if v < 0
                              else "positive") + ("(int)" if case.get("value_kind") == "int" else ""))
+        vc = vclass_of(case)
+        t.append(f"values={case['dtype']}.{vc}" if vc else "values=small_integers")
+        if vc:
+            t.append(f"values.{fn}" + (f".{case['mode']}" if "mode" in case else "") + f"={vc}")
+            if vc == "nonfinite":
+                labs = {v for row in case["x"] for fr in row for v in fr}
+                t += [f"values.{name}" for name, lab in (("+inf", LBL_INF), ("-inf", LBL_NINF), ("-0.0", LBL_NZERO),
+                                                         ("nan", LBL_NAN))
+                      if lab in labs]
+        if abs(v) > 2 ** 15 - 1 or v in (65504, -65504, 32767, -32768, 2047, 255):
+            t.append(f"value=edge_of_{case['dtype']}")
         if case.get("idx"):
             t.append(f"idx={case['idx']['dtype']}/{case['idx']['layout']}")
         if case.get("stream"):
@@ -1648,7 +1854,7 @@ class C09(PropertyCheck):
         """smaller pad_masked_sequence requests: plain options, fewer sequences, fewer time steps (halves
         first: the size stream reaches T > 1000), no trailing dims"""
         N, T, bf = case["N"], case["T"], case["batch_first"]
-        for k in ("x_layout", "call", "value_kind", "parent_eval", "stream", "large", "append"):
+        for k in ("x_layout", "call", "value_kind", "parent_eval", "stream", "large", "append", "vclass"):
             if k in case:
                 yield {q: v for q, v in case.items() if q != k}
         if case.get("mask_var") and not case["mask_var"].startswith("bcast"):
@@ -1684,11 +1890,11 @@ class C09(PropertyCheck):
                 yield cut(allN, [u for u in allT if u != t])
         if case["trail"] and not case.get("x_layout"):
             if bf:
-                x = [[[(fr + [n * 1000 + t + 1])[0]] for t, fr in enumerate(row)] for n, row in enumerate(case["x"])]
+                x = [[[(fr + [(n * 1000 + t) % 2000 + 1])[0]] for t, fr in enumerate(row)] for n, row in enumerate(case["x"])]
             else:
-                x = [[[(fr + [n * 1000 + t + 1])[0]] for n, fr in enumerate(row)] for t, row in enumerate(case["x"])]
+                x = [[[(fr + [(n * 1000 + t) % 2000 + 1])[0]] for n, fr in enumerate(row)] for t, row in enumerate(case["x"])]
             yield dict(case, trail=[], x=x)
-        if case.get("dtype") != "float32":
+        if case.get("dtype") != "float32" and abs(value_frac(case)) <= 2048:   # a pad value float32 holds too
             yield dict(case, dtype="float32")
 
     def shrink(self, case):
@@ -1728,7 +1934,7 @@ class C09(PropertyCheck):
         if "slices" in case and max((abs(v) for p in case["slices"] for v in p), default=0) > 16:
             yield dict(case, slices=[[int(a / 2), int(b / 2)] for a, b in case["slices"]])
         # the options that should not matter, back to plain
-        for k in ("x_layout", "idx", "call", "value_kind", "pre_modes", "parent_eval", "stream", "large"):
+        for k in ("x_layout", "idx", "call", "value_kind", "pre_modes", "parent_eval", "stream", "large", "vclass"):
             if k in case:
                 yield {q: v for q, v in case.items() if q != k}
         if case.get("entry") in ("module_parent", "util"):
@@ -1748,7 +1954,7 @@ class C09(PropertyCheck):
         # no trailing dims
         if case["trail"]:
             yield dict({q: v for q, v in case.items() if q != "x_layout"}, trail=[],
-                       x=[[[(fr + [n * 10 + t])[0]] for t, fr in enumerate(row)]
+                       x=[[[(fr + [(n * 10 + t) % 2000])[0]] for t, fr in enumerate(row)]
                           for n, row in enumerate(case["x"])])
         # drop the last time step
         if T > 1 and all(l < T for l in (case.get("lens") or [T])):
@@ -1779,7 +1985,7 @@ class C09(PropertyCheck):
                     yield c
         if case.get("entry") == "module" and not case.get("pre_modes"):
             yield dict(case, entry="functional")
-        if case.get("dtype") != "float32":
+        if case.get("dtype") != "float32" and abs(value_frac(case)) <= 2048:   # a pad value float32 holds too
             yield dict(case, dtype="float32")
 
 
